@@ -3,7 +3,7 @@ CONSTANTS
   Conns = {1, 2}
   Kinds = {"server", "out", "in"}
   Obfs = {FALSE}
-  SlowListener = FALSE
+  SlowListener = TRUE
   GuardAcceptFinish = TRUE
   CloseOnCancel = TRUE
   AbortConnectOnClose = TRUE
